@@ -1,6 +1,367 @@
-//! C19 (stub)
+//! C19 (thin: range, errors and fixed/boxed stream agreement only — no uniformity statistics).
+//!
+//! Modular sampling must return a value strictly below the modulus, bit-bounded sampling a value
+//! below 2^bit_length, with the documented error exactly when the length exceeds the target (or
+//! the precision mismatches). Fixed and boxed integers of the same width must consume the stream
+//! identically and return the same value. Streams: ChaCha8 from many seeds and adversarial stubs
+//! (all ones, all zeros, words equal to / one above / one below the modulus' top limb) that
+//! switch to a splitmix64 stream after a while so that rejection sampling terminates.
+
 use super::prelude::*;
+use crypto_bigint::{Random, RandomBits, RandomBitsError, RandomMod};
+use rand_chacha::ChaCha8Rng;
+use rand_core::{RngCore, SeedableRng};
+
+// ---------------------------------------------------------------- RNGs
+
+#[derive(Clone)]
+enum TestRng {
+    Cha(ChaCha8Rng),
+    /// `word` for `reps` draws, then splitmix64 from state `ctr`
+    Stub { word: u64, reps: usize, ctr: u64 },
+}
+
+impl TestRng {
+    fn word(&mut self) -> u64 {
+        match self {
+            TestRng::Cha(r) => r.next_u64(),
+            TestRng::Stub { word, reps, ctr } => {
+                if *reps > 0 {
+                    *reps -= 1;
+                    *word
+                } else {
+                    // splitmix64: a plain counter resonates with the draw pattern of the rejection loop
+                    // (hi word, k-1 low words, hi word, ..) and can make it reject forever
+                    *ctr = ctr.wrapping_add(0x9e37_79b9_7f4a_7c15);
+                    let mut z = *ctr;
+                    z = (z ^ (z >> 30)).wrapping_mul(0xbf58_476d_1ce4_e5b9);
+                    z = (z ^ (z >> 27)).wrapping_mul(0x94d0_49bb_1331_11eb);
+                    z ^ (z >> 31)
+                }
+            }
+        }
+    }
+}
+
+impl RngCore for TestRng {
+    fn next_u32(&mut self) -> u32 {
+        match self {
+            TestRng::Cha(r) => r.next_u32(),
+            _ => self.word() as u32,
+        }
+    }
+    fn next_u64(&mut self) -> u64 {
+        self.word()
+    }
+    fn fill_bytes(&mut self, dst: &mut [u8]) {
+        match self {
+            TestRng::Cha(r) => r.fill_bytes(dst),
+            _ => {
+                for chunk in dst.chunks_mut(8) {
+                    let w = self.word().to_le_bytes();
+                    chunk.copy_from_slice(&w[..chunk.len()]);
+                }
+            }
+        }
+    }
+}
+
+/// (description, rng): ChaCha streams and the adversarial stubs for a modulus whose top limb is `top`.
+fn rngs(c: &mut Ctx, top: u64, n_cha: usize) -> Vec<(String, TestRng)> {
+    let mut v = Vec::new();
+    for _ in 0..n_cha {
+        let seed = c.word();
+        v.push((format!("chacha8(seed=0x{:x})", seed), TestRng::Cha(ChaCha8Rng::seed_from_u64(seed))));
+    }
+    for (name, word) in [("ones", u64::MAX), ("zeros", 0), ("top", top), ("top+1", top.wrapping_add(1)), ("top-1", top.wrapping_sub(1))] {
+        for (reps, ctr) in [(40usize, 0u64), (7, u64::MAX - 3)] {
+            v.push((format!("stub({} x{}, then splitmix64 from 0x{:x})", name, reps, ctr), TestRng::Stub { word, reps, ctr }));
+        }
+    }
+    v
+}
+
+/// `below!(c, got, bound; inputs..)`: `got: Result<BigUint, String>` must be `< bound`.
+macro_rules! below {
+    ($c:expr, $got:expr, $bound:expr; $($name:ident),* $(,)?) => {{
+        let got__ = $got;
+        match &got__ {
+            Ok(value) => {
+                let value = value.clone();
+                let _ = holds!($c, value < $bound, "value strictly below the bound"; value, $($name),*);
+            }
+            Err(_) => {
+                no_panic!($c, got__; $($name),*);
+            }
+        }
+    }};
+}
+
+// ---------------------------------------------------------------- moduli
+
+/// Moduli below 2^(64 l): 1..l significant limbs; top limb 1, 2, 3, 2^j, 2^j +- 1, MAX, MAX-1;
+/// low limbs all zero / all MAX / random.
+fn moduli(c: &mut Ctx, l: usize) -> Vec<BigUint> {
+    let mut tops: Vec<u64> = vec![1, 2, 3, u64::MAX, u64::MAX - 1];
+    for j in [2u32, 8, 31, 32, 33, 62, 63] {
+        tops.extend([1 << j, (1 << j) - 1, (1u64 << j).wrapping_add(1)]);
+    }
+    let ks: Vec<usize> = if l <= 4 { (1..=l).collect() } else { vec![1, 2, l / 2, l - 1, l] };
+    let mut v = Vec::new();
+    for k in ks {
+        for &t in &tops {
+            for low in 0..3 {
+                let mut w: Vec<u64> = (0..k - 1)
+                    .map(|_| match low {
+                        0 => 0,
+                        1 => u64::MAX,
+                        _ => c.edgy_word(),
+                    })
+                    .collect();
+                w.push(t);
+                v.push(words_to_big(&w));
+                if k == 1 {
+                    break;
+                }
+            }
+        }
+    }
+    for _ in 0..(c.iters / 40).max(8) {
+        let m = c.rnd(l);
+        if !m.is_zero() {
+            v.push(m);
+        }
+    }
+    v
+}
+
+fn top_limb(m: &BigUint) -> u64 {
+    *m.to_u64_digits().last().unwrap_or(&0)
+}
+
+// ---------------------------------------------------------------- random_mod
+
+fn random_mod_uint<const L: usize>(c: &mut Ctx) {
+    for m in moduli(c, L) {
+        if c.done() {
+            return;
+        }
+        let (nz, nzb) = (nzu::<L>(&m), nzx(&m, L));
+        let n_cha = 3 + c.iters / 200;
+        for (rng, r0) in rngs(c, top_limb(&m), n_cha) {
+            let mut r = r0.clone();
+            let fixed = call(|| { let v = Uint::<L>::random_mod(&mut r, &nz); (ub(&v), r.next_u64()) });
+            below!(c, fixed.clone().map(|v| v.0), m; m, rng);
+            let mut r = r0.clone();
+            let tried = call(|| { let v = Uint::<L>::try_random_mod(&mut r, &nz).expect("infallible rng"); (ub(&v), r.next_u64()) });
+            below!(c, tried.clone().map(|v| v.0), m; m, rng);
+            // same stream -> same value, same consumption: try_ form, boxed form (precision of the modulus)
+            if let Ok(f) = fixed {
+                check!(c, tried, f.clone(); m, rng);
+                let mut r = r0.clone();
+                let boxed = call(|| { let v = BoxedUint::random_mod(&mut r, &nzb); (xb(&v), r.next_u64(), v.nlimbs()) });
+                check!(c, boxed, (f.0.clone(), f.1, L); m, rng);
+                let mut r = r0.clone();
+                let boxed = call(|| { let v = BoxedUint::try_random_mod(&mut r, &nzb).expect("infallible rng"); (xb(&v), r.next_u64(), v.nlimbs()) });
+                check!(c, boxed, (f.0.clone(), f.1, L); m, rng);
+            }
+        }
+    }
+}
+
+fn random_mod_boxed(c: &mut Ctx) {
+    // precisions wider than the modulus needs (zero high limbs), 1..=4 limbs + 16
+    for limbs in [1usize, 2, 3, 4, 16] {
+        for m in c.scaled(4, |c| moduli(c, limbs)) {
+            if c.done() {
+                return;
+            }
+            for extra in [0usize, 1, 3] {
+                let prec = limbs + extra;
+                let nzb = nzx(&m, prec);
+                for (rng, r0) in rngs(c, top_limb(&m), 1) {
+                    let mut r = r0.clone();
+                    let got = call(|| { let v = BoxedUint::random_mod(&mut r, &nzb); (xb(&v), v.nlimbs()) });
+                    below!(c, got.clone().map(|v| v.0), m; m, prec, rng);
+                    // documented nowhere else: the result has the precision of the modulus
+                    check!(c, got.map(|v| v.1), prec; m, prec, rng);
+                }
+            }
+        }
+    }
+}
+
+fn random_mod_limb(c: &mut Ctx) {
+    for m in moduli(c, 1) {
+        if c.done() {
+            return;
+        }
+        let nz = nzl(&m);
+        for (rng, r0) in rngs(c, top_limb(&m), 4) {
+            let mut r = r0.clone();
+            let a = call(|| { let v = Limb::random_mod(&mut r, &nz); (lb(v), r.next_u64()) });
+            below!(c, a.clone().map(|v| v.0), m; m, rng);
+            let mut r = r0.clone();
+            let b = call(|| { let v = Limb::try_random_mod(&mut r, &nz).expect("infallible rng"); (lb(v), r.next_u64()) });
+            below!(c, b.clone().map(|v| v.0), m; m, rng);
+            if let Ok(a) = a {
+                check!(c, b, a; m, rng);
+            }
+        }
+    }
+}
+
+// ---------------------------------------------------------------- random_bits
+
+/// oracle-typed view of a `try_random_bits*` result
+fn bits_result<T, E>(r: Result<T, RandomBitsError<E>>, f: impl Fn(&T) -> BigUint) -> Result<BigUint, String> {
+    match r {
+        Ok(v) => Ok(f(&v)),
+        Err(RandomBitsError::BitLengthTooLarge { bit_length, bits_precision }) => Err(format!("BitLengthTooLarge({}, {})", bit_length, bits_precision)),
+        Err(RandomBitsError::BitsPrecisionMismatch { bits_precision, integer_bits }) => Err(format!("BitsPrecisionMismatch({}, {})", bits_precision, integer_bits)),
+        Err(RandomBitsError::RandCore(_)) => Err("RandCore".to_string()),
+    }
+}
+
+fn random_bits_uint<const L: usize>(c: &mut Ctx) {
+    let bits = 64 * L as u32;
+    // every bit length 0..=BITS
+    for bit_length in 0..=bits {
+        if c.done() {
+            return;
+        }
+        let n_cha = if L <= 4 { 2 } else { 1 };
+        for (rng, r0) in rngs(c, 0, n_cha).into_iter().step_by(if L <= 4 { 1 } else { 3 }) {
+            let mut r = r0.clone();
+            let fixed = call(|| { let v = Uint::<L>::random_bits(&mut r, bit_length); (ub(&v), r.next_u64()) });
+            below!(c, fixed.clone().map(|v| v.0), pow2(bit_length); bit_length, rng);
+            let Ok(f) = fixed else { continue };
+            let mut r = r0.clone();
+            let t = call(|| (bits_result(Uint::<L>::try_random_bits(&mut r, bit_length), ub), r.next_u64()));
+            check!(c, t, (Ok(f.0.clone()), f.1); bit_length, rng);
+            let mut r = r0.clone();
+            let t = call(|| (bits_result(Uint::<L>::try_random_bits_with_precision(&mut r, bit_length, bits), ub), r.next_u64()));
+            check!(c, t, (Ok(f.0.clone()), f.1); bit_length, rng);
+            let mut r = r0.clone();
+            let t = call(|| { let v = Uint::<L>::random_bits_with_precision(&mut r, bit_length, bits); (ub(&v), r.next_u64()) });
+            check!(c, t, f.clone(); bit_length, rng);
+            // Int: the same bits
+            let mut r = r0.clone();
+            let t = call(|| { let v = Int::<L>::random_bits(&mut r, bit_length); (ub(v.as_uint()), r.next_u64()) });
+            check!(c, t, f.clone(); bit_length, rng);
+            let mut r = r0.clone();
+            let t = call(|| (bits_result(Int::<L>::try_random_bits_with_precision(&mut r, bit_length, bits), |v| ub(v.as_uint())), r.next_u64()));
+            check!(c, t, (Ok(f.0.clone()), f.1); bit_length, rng);
+            // boxed of the same width: same value, same consumption, requested precision
+            let mut r = r0.clone();
+            let t = call(|| { let v = BoxedUint::try_random_bits_with_precision(&mut r, bit_length, bits); let p = v.as_ref().map(|v| v.bits_precision()).unwrap_or(0); (bits_result(v, xb), r.next_u64(), p) });
+            check!(c, t, (Ok(f.0.clone()), f.1, bits); bit_length, rng);
+            let mut r = r0.clone();
+            let t = call(|| { let v = BoxedUint::random_bits_with_precision(&mut r, bit_length, bits); (xb(&v), r.next_u64(), v.bits_precision()) });
+            check!(c, t, (f.0.clone(), f.1, bits); bit_length, rng);
+            // boxed with the minimal precision: same value, precision = bit_length rounded up to limbs
+            // (a BoxedUint has at least one limb)
+            let mut r = r0.clone();
+            let t = call(|| { let v = BoxedUint::random_bits(&mut r, bit_length); (xb(&v), r.next_u64(), v.bits_precision()) });
+            check!(c, t, (f.0.clone(), f.1, (bit_length.div_ceil(64) * 64).max(64)); bit_length, rng);
+        }
+    }
+    // documented errors: bit_length above the target, precision different from the type's
+    let mut r = TestRng::Cha(ChaCha8Rng::seed_from_u64(c.word()));
+    for bit_length in [bits + 1, bits + 2, bits + 63, bits + 64, 2 * bits, u32::MAX] {
+        let e: Result<BigUint, String> = Err(format!("BitLengthTooLarge({}, {})", bit_length, bits));
+        check!(c, call(|| bits_result(Uint::<L>::try_random_bits(&mut r, bit_length), ub)), e.clone(); bit_length);
+        check!(c, call(|| bits_result(Uint::<L>::try_random_bits_with_precision(&mut r, bit_length, bits), ub)), e.clone(); bit_length);
+        check!(c, call(|| bits_result(Int::<L>::try_random_bits(&mut r, bit_length), |v| ub(v.as_uint()))), e.clone(); bit_length);
+        check!(c, call(|| bits_result(BoxedUint::try_random_bits_with_precision(&mut r, bit_length, bits), xb)), e; bit_length);
+        // "A wrapper for try_random_bits that panics on error"
+        must_panic!(c, call(|| Uint::<L>::random_bits(&mut r, bit_length)); bit_length);
+        must_panic!(c, call(|| Uint::<L>::random_bits_with_precision(&mut r, bit_length, bits)); bit_length);
+        must_panic!(c, call(|| BoxedUint::random_bits_with_precision(&mut r, bit_length, bits)); bit_length);
+    }
+    for prec in [0, 1, bits - 64, bits - 1, bits + 1, bits + 64, 2 * bits, u32::MAX] {
+        if prec == bits {
+            continue;
+        }
+        for bit_length in [0, 1, bits / 2, bits] {
+            let e: Result<BigUint, String> = Err(format!("BitsPrecisionMismatch({}, {})", prec, bits));
+            check!(c, call(|| bits_result(Uint::<L>::try_random_bits_with_precision(&mut r, bit_length, prec), ub)), e.clone(); bit_length, prec);
+            check!(c, call(|| bits_result(Int::<L>::try_random_bits_with_precision(&mut r, bit_length, prec), |v| ub(v.as_uint()))), e; bit_length, prec);
+            must_panic!(c, call(|| Uint::<L>::random_bits_with_precision(&mut r, bit_length, prec)); bit_length, prec);
+        }
+    }
+}
+
+fn random_bits_boxed(c: &mut Ctx) {
+    // every (bit_length, precision) with precision a multiple of 64 up to 320, plus odd precisions
+    let precs: Vec<u32> = vec![0, 1, 63, 64, 65, 127, 128, 129, 192, 256, 257, 320];
+    for &prec in &precs {
+        let rounded = (prec.div_ceil(64) * 64).max(64); // a BoxedUint has at least one limb
+        for bit_length in 0..=prec + 2 {
+            if c.done() {
+                return;
+            }
+            for (rng, r0) in rngs(c, 0, 1).into_iter().step_by(2) {
+                let mut r = r0.clone();
+                let got = call(|| { let v = BoxedUint::try_random_bits_with_precision(&mut r, bit_length, prec); let p = v.as_ref().map(|v| v.bits_precision()).unwrap_or(0); (bits_result(v, xb), p) });
+                if bit_length > prec {
+                    let e: Result<BigUint, String> = Err(format!("BitLengthTooLarge({}, {})", bit_length, prec));
+                    check!(c, got, (e, 0); bit_length, prec, rng);
+                    let mut r = r0.clone();
+                    must_panic!(c, call(|| BoxedUint::random_bits_with_precision(&mut r, bit_length, prec)); bit_length, prec, rng);
+                } else {
+                    below!(c, got.clone().map(|v| v.0.unwrap_or_else(|_| pow2(bit_length))), pow2(bit_length); bit_length, prec, rng);
+                    check!(c, got.map(|v| (v.0.is_ok(), v.1)), (true, rounded); bit_length, prec, rng);
+                }
+            }
+        }
+    }
+}
+
+// ---------------------------------------------------------------- plain Random, NonZero / Odd
+
+fn random_plain<const L: usize>(c: &mut Ctx) {
+    for (rng, r0) in rngs(c, 0, (c.iters / 8).max(16)) {
+        if c.done() {
+            return;
+        }
+        let mut r = r0.clone();
+        let u = call(|| { let v = Uint::<L>::random(&mut r); (ub(&v), r.next_u64()) });
+        no_panic!(c, u.clone(); rng);
+        let mut r = r0.clone();
+        let i = call(|| { let v = Int::<L>::random(&mut r); (ub(v.as_uint()), r.next_u64()) });
+        // Int and Uint read the stream identically
+        if let Ok(u) = u {
+            check!(c, i, u.clone(); rng);
+            let mut r = r0.clone();
+            check!(c, call(|| { let v = Uint::<L>::try_random(&mut r).expect("infallible rng"); (ub(&v), r.next_u64()) }), u; rng);
+        }
+        let mut r = r0.clone();
+        no_panic!(c, call(|| Limb::random(&mut r)); rng);
+        // invariants of the wrappers (streams starting with zeros / even words included)
+        let mut r = r0.clone();
+        check!(c, call(|| NonZero::<Uint<L>>::random(&mut r)).map(|v| !ub(v.as_ref()).is_zero()), true; rng);
+        let mut r = r0.clone();
+        check!(c, call(|| NonZero::<Int<L>>::random(&mut r)).map(|v| !ib(v.as_ref()).is_zero()), true; rng);
+        let mut r = r0.clone();
+        check!(c, call(|| NonZero::<Limb>::random(&mut r)).map(|v| v.get().0 != 0), true; rng);
+        let mut r = r0.clone();
+        check!(c, call(|| Odd::<Uint<L>>::random(&mut r)).map(|v| ub(v.as_ref()).bit(0)), true; rng);
+        for bit_length in [1u32, 2, 63, 64, 65, 64 * L as u32] {
+            let mut r = r0.clone();
+            let got = call(|| Odd::<BoxedUint>::random(&mut r, bit_length)).map(|v| (xb(v.as_ref()).bit(0), xb(v.as_ref()) < pow2(bit_length)));
+            check!(c, got, (true, true); bit_length, rng);
+        }
+    }
+}
 
 pub fn cases() -> Vec<Case> {
-    Vec::new()
+    let mut v = Vec::new();
+    ucases!(v, "random_mod/try_random_mod: value < modulus, Uint == BoxedUint on the same stream", random_mod_uint; 1, 2, 3, 4, 16);
+    case!(v, "BoxedUint::random_mod: value < modulus, precision of the modulus (wider than needed too)", random_mod_boxed);
+    case!(v, "Limb::random_mod/try_random_mod: value < modulus", random_mod_limb);
+    ucases!(v, "random_bits/try_random_bits(_with_precision): value < 2^bit_length, errors, Uint == Int == BoxedUint on the same stream", random_bits_uint; 1, 2, 3, 4, 16);
+    case!(v, "BoxedUint::try_random_bits_with_precision: every bit_length for several precisions", random_bits_boxed);
+    ucases!(v, "Random::random (Uint, Int, Limb), NonZero/Odd random invariants", random_plain; 1, 2, 4, 16);
+    v
 }
